@@ -30,7 +30,12 @@ MANIFEST_ENTRY = {
           "tokens directly.",
   "design_ref": "DESIGN.md section 8 C13"
  },
- "level_note": "Trusted: Coq kernel; the operator table translator tools/sync/tokens.py; extraction (ExtrOcamlBasic only); "
+ "level_note": "Clause (d), maximal runs, is machine-checked for all inputs and all Unicode classifications (C13_identifier_maximal, "
+               "C13_whitespace_maximal, C13_annotation_maximal, C13_line_annotation_maximal, C13_number_maximal, C13_number_period_rule; "
+               "Proofs/C13/LexMax*.v): every Identifier, Whitespace, Annotation, LineAnnotation and Number token of a successful lex "
+               "consists of exactly the character class the lexer uses and the input character after it cannot continue it; the one "
+               "place where a digits-like number stops before a character it could take - a period - is characterised exactly "
+               "(`..` follows, or the previous token's type blocks floats). Trusted: Coq kernel; the operator table translator tools/sync/tokens.py; extraction (ExtrOcamlBasic only); "
                "the Rust harness bin lex, ocaml/lex_driver.ml and the Python oracle; char::is_numeric / is_alphanumeric on "
                "non-ASCII code points are parameters of the model (theorems hold for every classification; the harness "
                "reports the real classification per case). Five defects were repaired in /repo (fix: commits, see "
